@@ -355,7 +355,7 @@ def server_400_arm(ctx, rule):
             continue
         if rk and rk[0] == "Err" and look(rk[1])[0] == "agg" and look(rk[1])[2] == "Overflow":
             continue     # the counter's overflow guard written as an explicit match (C09 R09.1/R09.11 deal with it)
-        yields_nothing = rk is not None and rk[0] == "Ok" and is_call(look(rk[1]), "new") and "Vec" in look(rk[1])[1]
+        yields_nothing = rk is not None and rk[0] == "Ok" and srv.read_yield(facts, lf)["empty"]
         drained = len(pops) >= 1 or srv.from_fn_drains(facts, lf, ("for_each", "count", "last", "extend", "collect", "fold"))
         ctx.ob(rule, "400|one-bad-request-queued", ok_new and ok_enq, "ParseError arm: exactly one Response::new(_, BadRequest) is queued (new=%d, enqueue=%d)" % (len(news), len(enq)), fn.loc(lf.bb))
         ctx.ob(rule, "400|body-is-error-display", body_ok, "its body is formatted from Display of the ParseError payload matched", fn.loc(lf.bb))
